@@ -45,6 +45,7 @@ var checks = map[string]entry{
 	"EXTPROBE": {"model_checking", props.ExtProbe},
 	"PTFOREIGN": {"model_checking", props.PtForeign},
 	"C12S4K": {"model_checking", props.C12Sector4k},
+	"C10MAX": {"model_checking", props.C10MaxExtent},
 }
 
 func main() {
